@@ -83,6 +83,10 @@ def main():
             sys.exit(getattr(mod, 'replay', _base.replay)(args.replay))
 
         prop_v = 'Properties/%s.v' % pid
+        # bring EVERY compiled file up to date with the regenerated Gen/ first (the case files of the
+        # correspondence import model/spec modules that need not lie in this property's cone; a stale
+        # .vo must never be evaluated), then judge the property by its own cone only
+        C.make(['all'], timeout=2400)
         ok, log, failed = C.make([prop_v + 'o'], timeout=2400)
         cone = C.cone(prop_v)
         obligations = C.obligations(cone)
@@ -126,9 +130,12 @@ def main():
         if broken:
             # search the model and the implementation for a concrete failing input
             found = []
-            if hasattr(mod, 'search'):
+            if not violations:
                 try:
-                    found = mod.search(dict(ctx, broken=broken, differ=differ)) or []
+                    from props import base as _base
+                    sfn = getattr(mod, 'search', None)
+                    found = (sfn(dict(ctx, broken=broken, differ=differ)) if sfn
+                             else _base.default_search(mod, dict(ctx, broken=broken, differ=differ))) or []
                 except Exception:
                     traceback.print_exc()
             if found:
